@@ -158,13 +158,40 @@ def splitLines : Bytes → List Bytes
       | [] => [[b]]
       | l :: ls => (b :: l) :: ls
 
-/-- `ReadLine` also drops a CR in front of the LF (and at the end of a last piece) -/
-def dropCR (l : Bytes) : Bytes := if l.getLast? = some CR then l.dropLast else l
+/-- `ReadLine` drops a CR that stands directly in front of the LF (and only there: a CR at the very end
+    of a file without LF stays) -/
+def stripCRLF : Bytes → Bytes
+  | [] => []
+  | [b] => [b]
+  | a :: b :: r => if a = CR ∧ b = LF then LF :: stripCRLF r else a :: stripCRLF (b :: r)
+
+/-- size of the `bufio.Reader` of `reader.go` -/
+def bufSize : Nat := 8192
+
+/-- length of the unterminated tail (the bytes after the last LF) -/
+def tailLenAux : Nat → Bytes → Nat
+  | acc, [] => acc
+  | acc, b :: r => if b = LF then tailLenAux 0 r else tailLenAux (acc + 1) r
+
+def tailLen (d : Bytes) : Nat := tailLenAux 0 d
+
+/-- what `readLine` (reader.go) returns until EOF.  It reassembles a line longer than the buffer from
+    `ReadLine` chunks; if the file ends *without LF* exactly when a chunk has filled the buffer (the
+    unterminated tail is a positive multiple of `bufSize` long) the next `ReadLine` reports EOF and
+    `readLine` returns that error instead of the accumulated line: the tail is dropped. -/
+def readerLines (d : Bytes) : List Bytes :=
+  if 0 < tailLen d ∧ tailLen d % bufSize = 0 then (splitLines d).dropLast else splitLines d
+
+/-- the last, unterminated piece as `readLine` delivers it -/
+def tailLine (f : Bytes) : List Bytes := if f.length % bufSize = 0 then [] else [f]
+
+/-- what a torn last line contributes to a read -/
+def tornParse (f : Bytes) : List Item := (tailLine f).filterMap parseLine
 
 /-- the items the readers see from byte `off` of a data file on: every line that parses (the others
     are logged and skipped) -/
 def itemsFrom (data : Bytes) (off : Nat) : List Item :=
-  (splitLines (data.drop off)).filterMap fun l => parseLine (dropCR l)
+  (readerLines (stripCRLF (data.drop off))).filterMap parseLine
 
 /-- the items whose line (with its LF) lies wholly before byte `k` of `serialise its` -/
 def wholeLines : List Item → Nat → List Item
